@@ -94,9 +94,32 @@ def set_mode(mode):
         pp.ParserElement.enable_left_recursion(mode[1])
 
 
-def run_real(root, dumper, inp, mode, entry):
+class _Timeout(BaseException):
+    pass
+
+
+def _on_alarm(signum, frame):
+    raise _Timeout()
+
+
+def run_real(root, dumper, inp, mode, entry, timeout=0.75):
+    """a case that runs longer than `timeout` seconds is reported as ('div',): the real parser spins on
+    repetitions whose body matches without consuming"""
+    import signal
+    old_handler = signal.signal(signal.SIGALRM, _on_alarm)
+    signal.setitimer(signal.ITIMER_REAL, timeout)
+    try:
+        return _run_real(root, dumper, inp, mode, entry)
+    except _Timeout:
+        return ("div",) if entry[0] != "scan" else ("scan", [], "div")
+    finally:
+        signal.setitimer(signal.ITIMER_REAL, 0)
+        signal.signal(signal.SIGALRM, old_handler)
+        pp.ParserElement.disable_memoization()
+
+
+def _run_real(root, dumper, inp, mode, entry):
     set_mode(mode)
-    old = sys.getrecursionlimit()
     try:
         if entry[0] == "parse":
             try:
